@@ -35,7 +35,7 @@ def c27(res, tier, seed):
                    "under every truncation, too-large iff size > limit, position on frame boundaries")
     res.exhaustive = True
     replay_tour(res, b, "delim", tour, key=_delim_key)
-    n = 3000 if tier == "quick" else 60000
+    n = 2000 if tier == "quick" else 60000
     drive_and_validate(res, b, "delim", "Trace_Delim", seed, n, key=_delim_key)
     res.rule = ("tour: every transition of the bounded stream machine (messages with body lengths on the size-varint boundaries, "
                 "hand-made size headers, truncation at every point near a boundary, MaxSize in {-1, 0, size-1, size, size+1}) "
